@@ -716,12 +716,13 @@ def gen_jobs(base_seed, tier, budget=None):
     # buffer reuse: the same ndarray object, refilled in place with another problem of the same
     # shape, handed to the same solver object (defeats caches keyed by object identity)
     for cfgname, cls_, cfg_, meth_, pool_ in CONFIGS:
-        for pi in (1, 2):
+        for pi in (1, 2, 3):    # (pool entry 3 is the sparse / rank-deficient / other-orientation problem:
+            #                      a client-kept SPARSE object whose components are replaced between calls)
             for w in exh_worlds:
                 seed = base_seed * 10 ** 6 + 600000 + sid
-                a1 = [dict(pool_[pi][0], buf="B")] + pool_[pi][1:] if isinstance(pool_[pi][0], dict) and not pool_[pi][0].get("storage") else pool_[pi]
+                a1 = [dict(pool_[pi][0], buf="B")] + pool_[pi][1:] if isinstance(pool_[pi][0], dict) else pool_[pi]
                 tw = _twin(sub_rng(seed, "buf"), pool_[pi])
-                a2 = [dict(tw[0], buf="B")] + tw[1:] if isinstance(tw[0], dict) and not tw[0].get("storage") else tw
+                a2 = [dict(tw[0], buf="B")] + tw[1:] if isinstance(tw[0], dict) else tw
                 steps = [{"k": "rng", "op": "seed", "v": 77}, {"k": "new", "obj": "s0", "cls": cls_, "cfg": cfg_},
                          {"k": "call", "obj": "s0", "meth": meth_, "args": a1, "client": 0, "cfgname": cfgname},
                          {"k": "call", "obj": "s0", "meth": meth_, "args": a2, "client": 0, "cfgname": cfgname},
@@ -741,6 +742,25 @@ def gen_jobs(base_seed, tier, budget=None):
             jobs.append({"seed": seed, "trace": {"prop": PROP, "seed": seed, "world": w, "mode": "buffer",
                                                  "cfgname": fn, "seq": ["H", "N", "H", "N", "H"], "steps": steps}})
         sid += 1
+    # every catalogue routine that consumes the shared random stream, three times in a row with the
+    # SAME arguments from different stream states (a memo filled by the first call - cached random
+    # factors, a cached sketch - makes the later calls draw less and return something else)
+    rnd_calls = [("data_gen.create_test_matrix", [4, 4], {}), ("data_gen.create_test_matrix", [4, 3], {"rank": 2}),
+                 ("data_gen.create_test_matrix", [4, 4], {"cond_number": 10.0}),
+                 ("data_gen.create_test_matrix", [3, 3], {"cond_number": 100.0}),
+                 ("data_gen.generate_random_unitary_matrix", [3], {}),
+                 ("data_gen.create_sparse_quat_matrix", [4, 4], {"density": 0.5}),
+                 ("utils.power_iteration", [HERM(4, 71)], {"max_iterations": 3, "return_eigenvalue": True}),
+                 ("decomp.qsvd.rand_qsvd", [G(5, 4, 72), 2], {"oversample": 1, "n_iter": 1}),
+                 ("decomp.qsvd.pass_eff_qsvd", [G(5, 4, 73), 2], {"oversample": 1, "n_passes": 2})]
+    for fi, (fn_, args_, kw_) in enumerate(rnd_calls):
+        seed = base_seed * 10 ** 6 + 530000 + fi
+        st_ = {"k": "fn", "fn": fn_, "args": args_, "client": 0, **({"kwargs": kw_} if kw_ else {})}
+        for w in exh_worlds:
+            steps = [{"k": "rng", "op": "seed", "v": 11}, dict(st_), {"k": "rng", "op": "seed", "v": 12}, dict(st_),
+                     {"k": "rng", "op": "draw", "n": 7}, dict(st_)]
+            jobs.append({"seed": seed, "trace": {"prop": PROP, "seed": seed, "world": w, "mode": "offtype",
+                                                 "cfgname": fn_ + repr(sorted(kw_.items())), "seq": ["repeat3"], "steps": steps}})
     # already-reduced inputs, per routine of the reduction / Schur family: exactly upper Hessenberg,
     # exactly triangular, Hermitian tridiagonal, 2 x 2 - the inputs for which a reduction step can
     # be skipped (and the caller's array then used as the work array)
